@@ -115,6 +115,25 @@ def programs(rng, tier):
     for _ in range(2000 if quick else 12000):
         nv = rng.choice([4, 4, 5, 6, 8])
         P.add([rng.choice(["mk_dnf", "mk_cnf"]), str(nv), ["L"] + rand_clause_list(rng, nv)])
+    # many variables, short clauses (1..3 literals anywhere among 17..60 variables), 4..14 clauses: a clause list handled through
+    # any summary of a clause (a hash, its length, its first literal) loses or merges clauses here
+    for _ in range(2500 if quick else 30000):
+        nv = rng.choice([17, 20, 24, 32, 40, 60])
+        lst = []
+        for _c in range(rng.randrange(6, 15)):
+            cells = ["-"] * nv
+            k = rng.choice([1, 1, 2, 2, 2, 3])
+            # the first literal of a longer clause sits on one of the first few variables half of the time (a clause summarised
+            # by a short polynomial of its literals then lands in the range of the one-literal clauses)
+            xs = rng.sample(range(nv), k)
+            if k >= 2 and rng.random() < 0.5:
+                xs[0] = rng.randrange(0, 3)
+            for x in set(xs):
+                cells[x] = rng.choice("01")
+            while cells and cells[-1] == "-":
+                cells.pop()
+            lst.append("p" + "".join(cells))
+        P.add([rng.choice(["mk_dnf", "mk_cnf"]), str(nv), ["L"] + lst])
     for _ in range(20 if quick else 300):                                     # outside the property: recorded only
         nv = rng.choice([2, 3, 4])
         lst = rand_clause_list(rng, nv) + ["p" + "-" * nv + rng.choice("01")]
@@ -324,7 +343,9 @@ def judge(st, V):
     conf = False
     if impl == "PANIC" or not is_bdd(impl):
         bad, conf = {"problem": "panic / no Bdd for clauses inside the variable set"}, True
-    elif nv <= MAXO:
+    elif nv <= MAXO or impl != model:
+        # <= MAXO variables: all valuations, on every step; more variables: only to confirm a disagreement with the model — one
+        # targeted valuation family per clause plus random ones (props/oracle.py)
         conf, bad = oracle.check(call, impl)
         if not conf:
             bad = None
